@@ -337,7 +337,7 @@ fn plans_c20(tier: Tier) -> Vec<Plan> {
         c.v5 = vec![pub_v5, false, false, true, false];
         c.prelude.push(Act::Sub { c: 2, f: 0, qos: 1 });
         c.prelude.push(Act::Sub { c: 3, f: 0, qos: 2 });
-        v.push(Plan { cfg: c.clone(), depth_by_devs: vec![if q { 3 } else { 5 }] });
+        v.push(Plan { cfg: c.clone(), depth_by_devs: if q { vec![3, 2] } else { vec![5, 3] } });
         // the MQTT 5 subscriber subscribed with a subscription identifier
         let mut si = c.clone();
         si.variant = 1;
